@@ -16,8 +16,9 @@ import traceback
 from tools.vlib.coqfmt import Err
 
 
-class CaseTimeout(Exception):
-    pass
+class CaseTimeout(BaseException):
+    """not an Exception: code under test that catches Exception (or a logging sink that swallows what is raised inside it) must
+    not be able to swallow the alarm; the timer also repeats every second until the exception has got out"""
 
 
 def _alarm(signum, frame):
@@ -54,18 +55,38 @@ def main():
     state = setup() if setup else None
     signal.signal(signal.SIGALRM, _alarm)
     out = []
+    confirmed = 0      # cases that overran the limit and three times the limit
     for c in cases:
-        signal.alarm(limit)
+        if confirmed >= 2:
+            # two cases of this run have been shown not to end: the run fails whatever the rest does, so the rest is given a
+            # short limit and no second chance (otherwise every further looping case costs four times the limit)
+            signal.setitimer(signal.ITIMER_REAL, min(limit, 5), 1.0)
+            try:
+                r = impl(c, state) if setup else impl(c)
+            except CaseTimeout:
+                r = Err("Timeout")
+            except RecursionError as e:
+                r = Err("RecursionError", str(e))
+            except BaseException as e:  # noqa: BLE001
+                if isinstance(e, (KeyboardInterrupt, SystemExit)):
+                    raise
+                r = Err(type(e).__name__, "".join(traceback.format_exception_only(type(e), e))[-300:])
+            finally:
+                signal.setitimer(signal.ITIMER_REAL, 0)
+            out.append(r)
+            continue
+        signal.setitimer(signal.ITIMER_REAL, limit, 1.0)
         try:
             r = impl(c, state) if setup else impl(c)
         except CaseTimeout:
             # wall-clock alarm: on a machine busy with other work a harmless case can overrun it.  The case is run once more
             # with three times the limit; only if it overruns that too it counts as not ending (a loop that does not end still does not).
-            signal.alarm(3 * limit)
+            signal.setitimer(signal.ITIMER_REAL, 3 * limit, 1.0)
             try:
                 r = impl(c, state) if setup else impl(c)
             except CaseTimeout:
                 r = Err("Timeout")
+                confirmed += 1
             except RecursionError as e:
                 r = Err("RecursionError", str(e))
             except BaseException as e:  # noqa: BLE001
@@ -80,7 +101,7 @@ def main():
             name = type(e).__name__
             r = Err(name, "".join(traceback.format_exception_only(type(e), e))[-300:])
         finally:
-            signal.alarm(0)
+            signal.setitimer(signal.ITIMER_REAL, 0)
         out.append(r)
     with open(fout, "wb") as f:
         pickle.dump(out, f)
